@@ -20,6 +20,7 @@ Space(t) == CASE t = "branch" -> Branch [] t = "loop" -> LoopP [] t = "nested" -
               [] t = "closure" -> Closure [] t = "closure2" -> Closure2 [] t = "sliceidx" -> SliceIdx [] t = "hoistarms" -> HoistArms [] t = "bigloop" -> BigLoop
               [] t = "selectone" -> SelectOne [] t = "ivwidth" -> IVWidth [] t = "loopbranch" -> LoopBranch [] t = "rangebranch" -> RangeBranch [] t = "strbranch" -> StrBranch
               [] t = "sharedcmp" -> SharedCmp [] t = "fltbranch" -> FltBranch [] t = "extract" -> Extract [] t = "ubig" -> UBig [] t = "consttype" -> ConstType [] t = "sibloops" -> SibLoops [] t = "dectree" -> DecTree [] t = "labeled" -> Labeled [] t = "orand" -> OrAnd [] t = "switch2" -> Switch2
+              [] t = "effects" -> Effects [] t = "armloops" -> ArmLoops [] t = "maplen" -> MapLen
               [] OTHER -> BigConst
 Programs == UNION {Space(t) : t \in Templates}
 
@@ -34,7 +35,7 @@ RefPres == {pr \in Pres : ~pr.badswap /\ pr # Plain}
 \* (< / <=) with the branches exchanged, in either direction; == / != are not part of it
 \* commuting is about ALREADY-EVALUATED operands: where both operands are calls, exchanging them in the
 \* source reorders the calls, which is not a cosmetic change
-Applicable(p, pr) == /\ pr.flip => (p.tpl \in {"branch", "loopbranch", "rangebranch", "strbranch", "hoistarms"} /\ p.cmp \in {"<", "<=", ">", ">="})
+Applicable(p, pr) == /\ pr.flip => (p.tpl \in {"branch", "loopbranch", "rangebranch", "strbranch", "hoistarms", "armloops"} /\ p.cmp \in {"<", "<=", ">", ">="})
                      /\ pr.commute => p.tpl \notin {"call", "closure", "closure2"}
 
 RefactorPreserves ==
